@@ -215,7 +215,7 @@ class Runner:
         if spec.get("addresses"):
             kw["addresses"] = list(spec["addresses"])
         # spec["client_outside_loop"]: the client object is built by synchronous set-up code, before the loop that runs its sessions is running
-        self.cli = sim.client(spec.get("address") or None, 6053, spec.get("password"), outside_loop=bool(spec.get("client_outside_loop")), **kw)
+        self.cli = sim.client(spec.get("address") or None, 6053, spec.get("password"), outside_loop=spec.get("client_outside_loop") or False, **kw)
         if spec.get("traffic"):
             tr = spec["traffic"]
 
